@@ -151,6 +151,14 @@ class _Dual(ast.NodeTransformer):
             return ast.UnaryOp(op=ast.USub(), operand=n)
         return n
 
+    def visit_Call(self, n):
+        n = self.generic_visit(n)
+        if isinstance(n.func, ast.Name) and n.func.id == "float" and len(n.args) == 1 and isinstance(n.args[0], ast.Constant) \
+                and isinstance(n.args[0].value, str) and n.args[0].value.lstrip("+-").lower() in ("inf", "infinity"):
+            v = n.args[0].value
+            n.args = [ast.Constant(value=v[1:] if v.startswith("-") else "-" + v.lstrip("+"))]
+        return n
+
     def visit_UnaryOp(self, n):
         n = self.generic_visit(n)
         # --x => x
